@@ -119,6 +119,8 @@ impl Profile {
             "C02" => {
                 p.name = "C02";
                 p.w_churn_to = 1;
+                p.deep.dei = true;
+                p.deep.dei_exh_bits = 8;
                 p.w_insert = 50;
                 p.s_rel = 60;
                 p.deep.pairs = true;
